@@ -19,7 +19,7 @@ RECURSIVE DTerm(_, _), DThunk(_, _, _)
 DTerm(ch, n) ==
   LET p == Pick(ch) IN
   IF n <= 1 THEN [v |-> LeafSeq[1 + (p.c % Len(LeafSeq))], ch |-> p.ch]
-  ELSE LET kind == p.c % 6 IN
+  ELSE LET kind == p.c % 8 IN
     CASE kind \in {0, 1} -> LET q == Pick(p.ch) f == DThunk(q.ch, n - 1, 0) IN
                             [v |-> [k |-> "bind", v |-> VSeq[1 + (q.c % 2)], f |-> f.v], ch |-> f.ch]
       [] kind = 2 -> LET f == DThunk(p.ch, n - 1, 0) IN [v |-> [k |-> "delay", f |-> f.v], ch |-> f.ch]
@@ -27,6 +27,13 @@ DTerm(ch, n) ==
                      ELSE LET q == Pick(p.ch) i == 1 + (q.c % (n - 2))
                               a == DTerm(q.ch, i) b == DTerm(a.ch, n - 1 - i) IN
                           [v |-> [k |-> "comb", a |-> a.v, b |-> b.v], ch |-> b.ch]
+      \* seq.Breakable(body)
+      [] kind = 6 -> LET b == DTerm(p.ch, n - 1) IN [v |-> [k |-> "brk", body |-> b.v], ch |-> b.ch]
+      \* seq.ForPost(cond, post, body)
+      [] kind = 7 -> IF n = 2 THEN DTerm(p.ch, 1)
+                     ELSE LET q == Pick(p.ch) i == 1 + (q.c % (n - 2))
+                              a == DTerm(q.ch, i) b == DTerm(a.ch, n - 1 - i) IN
+                          [v |-> [k |-> "forpost", c |-> [id |-> 2], post |-> a.v, body |-> b.v], ch |-> b.ch]
       [] kind \in {4, 5} -> LET q1 == Pick(p.ch) q2 == Pick(q1.ch) b == DTerm(q2.ch, n - 1) IN
                             [v |-> [k |-> "for", c |-> CSeq[1 + (q1.c % Len(CSeq))], p |-> PSeq[1 + (q2.c % Len(PSeq))], body |-> b.v], ch |-> b.ch]
 \* a thunk whose returned term(s) have total size m
